@@ -674,6 +674,41 @@ impl Relations {
     }
 }
 
+/// Verification hooks (only with `--cfg deb822_verif`): read-only views of the syntax tree.
+#[cfg(deb822_verif)]
+impl Relations {
+    /// Nesting depth of the syntax tree (a lone root has depth 1).
+    pub fn verif_depth(&self) -> usize {
+        fn depth(n: &SyntaxNode) -> usize {
+            1 + n.children().map(|c| depth(&c)).max().unwrap_or(0)
+        }
+        depth(&self.0)
+    }
+
+    /// S-expression dump of the syntax tree: `(kind child ...)` for nodes, `kind:hex` for tokens.
+    pub fn verif_dump(&self) -> String {
+        fn dump(n: &SyntaxNode, out: &mut String) {
+            out.push_str(&format!("({}", n.kind() as u16));
+            for c in n.children_with_tokens() {
+                out.push(' ');
+                match c {
+                    NodeOrToken::Node(c) => dump(&c, out),
+                    NodeOrToken::Token(t) => {
+                        out.push_str(&format!("{}:", t.kind() as u16));
+                        for b in t.text().bytes() {
+                            out.push_str(&format!("{:02x}", b));
+                        }
+                    }
+                }
+            }
+            out.push(')');
+        }
+        let mut out = String::new();
+        dump(&self.0, &mut out);
+        out
+    }
+}
+
 impl From<Vec<Entry>> for Relations {
     fn from(entries: Vec<Entry>) -> Self {
         let mut builder = GreenNodeBuilder::new();
